@@ -359,17 +359,57 @@ def property_failures(sc, impl, contents):
         # reversibility: backup; install; restore from an installed version
         if cmds[i:i + 3] == [("backup",), ("install",), ("restore",)]:
             before = four(pre)
-            if all(before) and agent_runs(before[0], contents):
+            if all(before):
                 after = states[i + 3]
+                rs = impl["steps"][i + 2]
+                # known finding C17-K1: the installed agent does not answer --version and restore
+                # panicked (exit 101) right after `systemctl stop`
+                k1 = (not agent_runs(before[0], contents)) and rs["rc"] == 101 and [c[0][0] for c in rs["calls"]] == ["stop"]
+                tag = " [C17-K1]" if k1 else ""
                 if four(after) != before:
                     diff = [p for p, x, y in zip(P_SYS, before, four(after)) if x != y]
-                    why.append("steps %d-%d backup; install; restore did not reinstate %s" % (i, i + 2, diff))
+                    why.append("steps %d-%d backup; install; restore did not reinstate %s%s" % (i, i + 2, diff, tag))
                 if not after["running"]:
-                    why.append("steps %d-%d backup; install; restore left the service stopped" % (i, i + 2))
-                rs = impl["steps"][i + 2]
+                    why.append("steps %d-%d backup; install; restore left the service stopped%s" % (i, i + 2, tag))
                 if not any(c[0][:1] == ["start"] for c in rs["calls"]):
-                    why.append("steps %d-%d restore did not start the service again" % (i, i + 2))
+                    why.append("steps %d-%d restore did not start the service again%s" % (i, i + 2, tag))
     return why
+
+
+def known_filter(f):
+    """C17-K1 (known_findings.json): reversibility fails because the installed agent executable does
+    not answer --version -- recognised only in that exact shape (see property_failures)"""
+    if f.get("why", "").endswith("[C17-K1]"):
+        return ("id=C17-K1 class=KnownClass_C17_agent_not_runnable: backup; install; restore does not reinstate the files "
+                "when the installed agent executable does not answer --version (restore panics after `systemctl stop`, "
+                "the service stays stopped)")
+    return None
+
+
+def corpus_scenarios():
+    """fixed cases replayed first on every run (ids < 0)"""
+    ag = lambda v, mode=0o755: (mode, MAGIC + v.encode() + b"\nexit 0\n#corpus")
+    old = {"SysExe": ag("1.0.1"), "SysCfg": (0o600, b'{"old":1}'), "SysEbpf": (0o644, b"old-ebpf"), "SysUnit": (0o644, b"[Unit]\nold")}
+    pkg = {"PkgExe": ag("2.0.0"), "PkgCfg": (0o644, b'{"new":2}'), "PkgEbpf": (0o640, b"new-ebpf"), "PkgUnit": (0o664, b"[Unit]\nnew")}
+    stale = {"BakExe": ag("0.9.0"), "BakCfg": (0o644, b"stale-cfg"), "BakEbpf": (0o644, b"stale-ebpf"), "BakUnit": (0o644, b"stale-unit")}
+    triple = [["backup"], ["install"], ["restore"]]
+    out = []
+
+    def add(name, files, cmds, running=True, enabled=True, extras=()):
+        files = dict(files)
+        for i in extras:
+            files["X%d" % i] = (0o644, b"extra-%d" % i)
+        out.append({"id": -1 - len(out), "classes": {"system": name, "backup": name, "package": name}, "files": files,
+                    "extras": sorted(extras), "running": running, "enabled": enabled, "cmds": cmds})
+    add("corpus:upgrade-and-rollback", {**old, **pkg}, triple + [["restore"], ["purge"]], extras=(0, 2, 4, 5))
+    add("corpus:stale-backup", {**old, **pkg, **stale}, triple, extras=(9, 10))
+    add("corpus:agent-not-runnable (C17-K1)", {**old, **pkg, "SysExe": ag("1.0.1", 0o644)}, triple)
+    add("corpus:partial-install", {k: v for k, v in {**old, **pkg}.items() if k != "SysEbpf"}, triple)
+    add("corpus:nothing-installed", dict(pkg), triple + [["uninstall", "package"]], running=False, enabled=False)
+    add("corpus:broken-package", {**old, "PkgCfg": pkg["PkgCfg"]}, triple)
+    add("corpus:uninstall-purge", {**old, **pkg, **stale}, [["uninstall", "package"], ["purge"], ["restore"], ["install"]], extras=(9, 11, 5))
+    return out
+
 
 
 # ----------------------------------------------------------------------------------------
@@ -466,7 +506,7 @@ def run(ctx):
     ctx.log("binary accepts `restore false`:", accepts)
 
     nseq = 300 if ctx.quick else 3000
-    scenarios = [gen_scenario(rng, i) for i in range(nseq)]
+    scenarios = corpus_scenarios() + [gen_scenario(rng, i) for i in range(nseq)]
     try:
         impl, mres = execute(ctx, scenarios, lay, binary, accepts, with_model)
     except RuntimeError as e:
@@ -478,7 +518,7 @@ def run(ctx):
     disagreements, failures = [], []
     nsteps = agree_steps = 0
     classes = set()
-    stats = {"commands": {}, "exit_codes": {}, "triples_from_installed": 0, "system_class": {}, "backup_class": {}, "package_class": {}}
+    stats = {"commands": {}, "exit_codes": {}, "triples_from_installed": 0, "triples_from_known_class_K1": 0, "system_class": {}, "backup_class": {}, "package_class": {}}
     samples = []
     for sc, mr in zip(scenarios, mres):
         ir = impl[sc["id"]]
@@ -486,7 +526,8 @@ def run(ctx):
         msteps = model_steps(sc, lay, mr) if mr is not None else []
         diffs = compare(sc, lay, msteps, ir) if mr is not None else []
         case = {"id": sc["id"], "classes": sc["classes"], "running": sc["running"], "enabled": sc["enabled"], "cmds": sc["cmds"],
-                "files": [[lay.render(k), "%o" % m, d.hex()] for k, (m, d) in sorted(sc["files"].items())]}
+                "files": [[lay.render(k), "%o" % m, d.hex()] for k, (m, d) in sorted(sc["files"].items())],
+                "replay": "python3 tools/checks/c17.py <this replay file>   # re-runs the case on the real binary and re-evaluates the property"}
         nsteps += len(ir["steps"])
         agree_steps += len(ir["steps"]) - len({d.split(":")[0] for d in diffs})
         if diffs:
@@ -506,8 +547,8 @@ def run(ctx):
             runs = tuple(agent_runs(pre["files"].get(lay.path[l]), contents) for l in ("SysExe", "PkgExe", "BakExe"))
             if tree_diff(pre, s["state"]) - {p for p in tree_diff(pre, s["state"]) if p.startswith(lay.tool_log)} or s["calls"]:
                 classes.add((a, bits, runs, pre["running"], pre["enabled"]))
-            if [tuple(x["args"]) for x in ir["steps"][i:i + 3]] == [("backup",), ("install",), ("restore",)] and all(four(pre)) and runs[0]:
-                stats["triples_from_installed"] += 1
+            if [tuple(x["args"]) for x in ir["steps"][i:i + 3]] == [("backup",), ("install",), ("restore",)] and all(four(pre)):
+                stats["triples_from_installed" if runs[0] else "triples_from_known_class_K1"] += 1
         if len(samples) < 3 and len(ir["steps"]) >= 3:
             samples.append({"case": case, "impl": [{"args": s["args"], "rc": s["rc"], "calls": [c[0] for c in s["calls"]], "running": s["state"]["running"],
                                                     "system_files": four(s["state"])} for s in ir["steps"]],
@@ -531,7 +572,7 @@ def run(ctx):
         "Restore {delete_backup: false} is proved about but cannot be reached through the pinned command line (clap rejects `restore false`); it is exercised only when the binary accepts it",
         "release build of proxy_agent_setup (a debug build panics in clap's debug assertions on `restore`)",
     ]
-    verdict(ctx, proofs_ok, detail, disagreements, failures,
+    verdict(ctx, proofs_ok, detail, disagreements, failures, known_filter,
             corr_name="Setup.exec/run_obs vs the real proxy_agent_setup binary (tree, service state, systemctl log)")
 
 
